@@ -160,8 +160,8 @@ def Ctx.notifySubChangeP2P (c : Ctx) (t : Topic) (uid actor : Uid) (oldWant oldG
   else
     let newM := newWant &&& newGiven
     let oldM := oldWant &&& oldGiven
-    let c := if !hearsPres newM ∧ hearsPres oldM then c.presSingleOfflineOffline uid uid2 "off+dis" "" "" "" ""
-      else if hearsPres newM ∧ !hearsPres oldM then c.presSingleOffline t uid newM "?unkn+en" "" "" "" "" false
+    let c := if !hearsPres newM ∧ hearsPres oldM then c.presSingleOfflineOffline uid uid2 "off" "" "" "" "" "dis"
+      else if hearsPres newM ∧ !hearsPres oldM then c.presSingleOffline t uid newM "?unkn" "" "" "" "" false "en"
       else c
     let c := c.presDirect t { what := "acs", src := "", extra := acs, singleUser := uid, skipSid := skip }
     c.presSingleOffline t uid newM "acs" acs actor uid skip true
@@ -221,7 +221,7 @@ def Ctx.thisUserSubP2P (c : Ctx) (t : Topic) (a : Actor) (want : String) (priv :
   | (c, none) => (c, t, none)
   | (c, some (ud, oldWant, oldGiven)) =>
     let c := if isPresencer (oldWant &&& oldGiven) ∧ !isPresencer (eff ud) then
-        c.presSingleOffline t a.uid (eff ud) "off+dis" "" "" "" "" false else c
+        c.presSingleOffline t a.uid (eff ud) "off" "" "" "" "" false "dis" else c
     let t := t.setPud a.uid ud
     let changed := oldWant ≠ ud.want ∨ oldGiven ≠ ud.given
     let c := if changed then c.notifySubChangeP2P t a.uid a.uid oldWant oldGiven ud.want ud.given a.sid else c
@@ -345,8 +345,8 @@ def Ctx.subscriptionReplyP2P (c : Ctx) (t : Topic) (a : Actor) (mode : String) (
         let c := if created then
             c.presSingleOffline t uid2 mode2 "acs" s!" dacs={showMode pud2.want}/{showMode pud2.given}" a.uid "" "" false else c
         if newsub then
-          let c := c.presSingleOffline t a.uid (w &&& g) "?none+en" "" "" "" "" false
-          let c := c.presSingleOffline t uid2 mode2 (if isPresencer mode2 then "?unkn+en" else "?unkn") "" "" "" "" false
+          let c := c.presSingleOffline t a.uid (w &&& g) "?none" "" "" "" "" false "en"
+          let c := c.presSingleOffline t uid2 mode2 "?unkn" "" "" "" "" false (if isPresencer mode2 then "en" else "")
           c.presSingleOffline t a.uid (w &&& g) "acs" s!" dacs={showMode w}/{showMode g}" a.uid "" a.sid false
         else c
     (c, t)
@@ -633,7 +633,7 @@ def Ctx.opDelTopicP2P (c : Ctx) (a : Actor) (peer : Uid) (hard : Bool) : Ctx :=
           let c := c.presSingleOfflineOffline a.uid peer "gone" "" "" "" a.sid
           -- two subscriptions were there: the requester's `me` stops telling the other user; the other user sees the requester offline
           let c := if subs.length = 2 then
-              (c.presSingleOfflineOffline a.uid peer "?none+rem" "" "" "" "").presSingleOfflineOffline peer a.uid "off" "" "" "" ""
+              (c.presSingleOfflineOffline a.uid peer "?none" "" "" "" "" "rem").presSingleOfflineOffline peer a.uid "off" "" "" "" ""
             else c
           c.emit a.sid (ctrl 200 tn)
   | some t =>
